@@ -28,7 +28,7 @@ def B(x):
     raise OutsideSubset(f"not a boolean: {x!r}")
 
 
-TEXT_TOKENS = {"VersionText", "EpochText", "JoinDots", "RelText", "SpecText", "IntText"}
+TEXT_TOKENS = {"VersionText", "EpochText", "JoinDots", "RelText", "SpecText", "IntText", "PaddedText", "JunkText"}
 
 
 def is_sym(v):
@@ -772,6 +772,8 @@ class ExprMixin:
             r = self.theory.getattr_other(self, o, attr)
             if r is not None:
                 return r
+        if type(o).__name__ in TEXT_TOKENS:
+            return BoundBuiltin(o, attr)
         raise OutsideSubset(f"attribute {attr} of {o!r}")
 
     def class_attr(self, cls, attr):
